@@ -132,6 +132,8 @@ def _unit_of(obj):
 
 
 def _task(task):
+    if task[0] == "histories":
+        return _small_histories(task[1])
     pairs, thorough = task
     part = Part()
     with worlds.world("posc") as db:
@@ -179,6 +181,8 @@ def _task(task):
                         if ua is not None and ua != current:
                             part.violation(sig + ":object reports the legacy symbol", {"unit": ua})
                     part.add("outcomes", (name, type(a).__name__))
+            if False:
+                pass
             if thorough:
                 for v in db.GetUnits(qt):
                     for x in (1.0, -2.5, 1e6):
@@ -194,6 +198,7 @@ def _task(task):
                         # equal up to rounding is what "same conversion results" can mean there
                         if r1 != r2 and not all(abs(p - q) <= 1e-12 * max(abs(p), abs(q)) for p, q in zip(r1, r2)):
                             part.violation(sig0 + ":conversion with %s differs" % v, {"legacy": r1, "current": r2})
+        _other_categories(part, db, pairs)
     return part
 
 
@@ -212,6 +217,138 @@ def _current_symbols(part, db):
     return len(units)
 
 
+# -- histories -------------------------------------------------------------------------------------
+
+
+def _other_categories(part, db, pairs):
+    """a legacy spelling used with an explicit NON-default category first (cold cache), then category-less
+    requests with either spelling: both must still resolve the default category"""
+    cats = {}
+    for c, info in db.categories_to_quantity_types.items():
+        cats.setdefault(info.quantity_type, []).append(c)
+    for legacy, current in pairs:
+        qt = db.GetQuantityType(current)
+        dc = db.GetDefaultCategory(current)
+        for c2 in cats.get(qt, []):
+            if c2 == dc:
+                continue
+            for prelude_name, prelude in (
+                ("Scalar(1, legacy, c2)", lambda: Scalar(1.0, legacy, c2)),
+                ("ObtainQuantity(legacy, c2)", lambda: ObtainQuantity(legacy, c2)),
+                ("Scalar(1, current, c2).CreateCopy(unit=legacy)", lambda: Scalar(1.0, current, c2).CreateCopy(unit=legacy)),
+                ("Array([1], legacy, c2)", lambda: Array([1.0], legacy, c2)),
+            ):
+                worlds.clear_caches(db)
+                part.count("evaluations")
+                sig = "C16:%s (legacy of %s):%s with category %r first" % (legacy, current, prelude_name, c2)
+                try:
+                    first = prelude()
+                except Exception as e:
+                    part.violation(sig + ":raised", {"error": repr(e)})
+                    continue
+                if first.GetCategory() != c2 or first.GetUnit() != current:
+                    part.violation(sig + ":built another quantity", {"object": repr(first), "category": first.GetCategory()})
+                    continue
+                for qname, f in (("ObtainQuantity(current)", lambda: ObtainQuantity(current)), ("ObtainQuantity(legacy)", lambda: ObtainQuantity(legacy)), ("Scalar(1, current)", lambda: Scalar(1.0, current)), ("Scalar(1, legacy)", lambda: Scalar(1.0, legacy)), ("Array([1], current)", lambda: Array([1.0], current))):
+                    part.count("evaluations")
+                    try:
+                        o = f()
+                    except Exception as e:
+                        part.violation(sig + ":then %s raised" % qname, {"error": repr(e)})
+                        break
+                    if o.GetCategory() != dc or o.GetUnit() != current:
+                        part.violation(
+                            sig + ":then %s resolves category %r instead of the default %r" % (qname, o.GetCategory(), dc),
+                            {"object": repr(o)},
+                            "from mc import worlds\nfrom barril.units import *\nfrom barril.units import ObtainQuantity\nwith worlds.world('posc') as db:\n    Scalar(1.0, %r, %r)\n    q = ObtainQuantity(%r)\n    print(q.GetCategory(), db.GetDefaultCategory(%r))\n    assert q.GetCategory() == db.GetDefaultCategory(%r)\n" % (legacy, c2, current, current, current),
+                        )
+                        break
+                part.add("outcomes", ("other-category-first", prelude_name))
+    worlds.clear_caches(db)
+
+
+def _small_world():
+    from barril.units.posc import MakeBaseToCustomary, MakeCustomaryToBase
+
+    db = UnitDatabase()
+    db.AddUnitBase("volume", "cubic metre", "m3")
+    db.AddUnit("volume", "thousand cubic feet", "Mcf", MakeBaseToCustomary(0.0, 28.31685, 1.0, 0.0), MakeCustomaryToBase(0.0, 28.31685, 1.0, 0.0))
+    db.AddUnitBase("amount of substance", "mole", "mol")
+    db.AddUnit("amount of substance", "pound mole", "lbmol", MakeBaseToCustomary(0.0, 453.5924, 1.0, 0.0), MakeCustomaryToBase(0.0, 453.5924, 1.0, 0.0))
+    return db
+
+
+SMALL = [("1000ft3", "Mcf", "volume", "m3"), ("k(ft3)", "Mcf", "volume", "m3"), ("lbmole", "lbmol", "amount of substance", "mol")]
+
+
+def _small_steps(legacy, current, qt, base):
+    """name -> (kind, callable(db, unit spelling)) ; kind R = registration (spelling-independent), Q = query"""
+    from barril.units.posc import MakeBaseToCustomary, MakeCustomaryToBase
+
+    return [
+        ("R:AddCategory(qt, qt)", "R", lambda db, u: db.AddCategory(qt, qt)),
+        ("R:AddCategory('other', qt)", "R", lambda db, u: db.AddCategory("other", qt)),
+        ("R:AddCategory('limited', qt, valid_units=[u], default_unit=u)", "RQ", lambda db, u: repr(db.AddCategory("limited", qt, valid_units=[u], default_unit=u))),
+        ("R:AddUnit(qt, 'x')", "R", lambda db, u: db.AddUnit(qt, "ex", "x", MakeBaseToCustomary(0.0, 2.0, 1.0, 0.0), MakeCustomaryToBase(0.0, 2.0, 1.0, 0.0))),
+        ("Q:db.GetDefaultCategory(u)", "Q", lambda db, u: db.GetDefaultCategory(u)),
+        ("Q:ObtainQuantity(u)", "Q", lambda db, u: ObtainQuantity(u)),
+        ("Q:ObtainQuantity(u, qt)", "Q", lambda db, u: ObtainQuantity(u, qt)),
+        ("Q:ObtainQuantity(u, 'other')", "Q", lambda db, u: ObtainQuantity(u, "other")),
+        ("Q:Scalar(1, u)", "Q", lambda db, u: Scalar(1.0, u)),
+        ("Q:db.Convert(qt, u, base, 2)", "Q", lambda db, u: db.Convert(qt, u, base, 2.0)),
+        ("Q:db.GetInfo(qt, u).unit", "Q", lambda db, u: db.GetInfo(qt, u).unit),
+        ("P:db.CheckCategoryUnit(qt, u)", "P", lambda db, u: db.CheckCategoryUnit(qt, u)),  # prelude only: documented NOT to accept legacy spellings
+    ]
+
+
+def _canon(v):
+    if hasattr(v, "GetCategory"):
+        return (type(v).__name__, v.GetCategory(), v.GetUnit(), v.GetQuantityType(), getattr(v, "value", None))
+    return v
+
+
+def _small_histories(task):
+    """Every sequence of <= 3 steps (registrations and queries written with the LEGACY spelling) on a fresh
+    small database, ended by a query: the answer for the legacy spelling must equal the answer for the
+    current spelling after the very same history (twin database)."""
+    depth = task
+    part = Part()
+    for legacy, current, qt, base in SMALL:
+        steps = _small_steps(legacy, current, qt, base)
+        for n in range(0, depth):
+            for prefix in itertools.product(range(len(steps)), repeat=n):
+                for li, (lname, lkind, lf) in enumerate(steps):
+                    if "Q" not in lkind:
+                        continue
+                    outs = []
+                    for final_spelling in (legacy, current):
+                        db = _small_world()
+                        with worlds.installed(db):
+                            for i in prefix:
+                                try:
+                                    steps[i][2](db, legacy)
+                                except Exception:
+                                    pass
+                            try:
+                                outs.append(("ok", _canon(lf(db, final_spelling))))
+                            except Exception:
+                                outs.append(("raise", "rejected"))  # the exception class is not part of the property
+                    part.count("evaluations", 2)
+                    part.count("histories")
+                    a, b = outs
+                    if isinstance(a[1], str) and isinstance(b[1], str) and a[0] == "ok":
+                        a = (a[0], a[1].replace(legacy, current))
+                    if a != b:
+                        part.violation(
+                            "C16:history(%s for %s): %s ; then %s" % (legacy, current, " ; ".join(steps[i][0] for i in prefix), lname),
+                            {"legacy": repr(outs[0]), "current": repr(outs[1])},
+                        )
+                    part.add("outcomes", ("history", lname, a[0]))
+                    if any(steps[i][1].startswith("R") for i in prefix):
+                        part.add("nontrivial", ("h", legacy, prefix, li))
+    return part
+
+
 def run(ctx):
     with worlds.world("posc") as db:
         units = set(db.unit_to_unit_info)
@@ -220,11 +357,12 @@ def run(ctx):
     if len(pairs) < 30:
         raise HarnessError("only %d legacy spellings derived" % len(pairs))
     tasks = [(pairs[i::16], ctx.thorough) for i in range(16)]
+    tasks.append(("histories", 4 if ctx.thorough else 3))
     run_sharded(ctx, _task, tasks)
     ctx.level = "exploration"
     ctx.rule = (
         "complete product: every legacy spelling derivable from the %d substitutions for the %d table units (%d spellings) x 35 entry points x 2 request orders on a cold cache%s; every current symbol through the rewrite; "
-        "non-trivial = distinct legacy spellings; outcomes = (entry point, result type)" % (len(_LEGACY_TO_CURRENT), n_units, len(pairs), " x every conversion target of the type x 3 values" if ctx.thorough else "")
+        "every legacy spelling used with every non-default category of its type first (cold cache) and then category-less; every sequence of <= 2 (thorough 3) registrations/legacy queries on a fresh small database ended by a query, legacy vs current on twin databases; non-trivial = distinct legacy spellings; outcomes = (entry point, result type)" % (len(_LEGACY_TO_CURRENT), n_units, len(pairs), " x every conversion target of the type x 3 values" if ctx.thorough else "")
     )
     ctx.coverage_extra = {"legacy_spellings": len(pairs), "substitutions": len(_LEGACY_TO_CURRENT), "current_symbols": n_units, "spellings_sample": pairs[:8]}
     ctx.part.sample({"legacy": pairs[0][0], "current": pairs[0][1]})
